@@ -35,7 +35,7 @@ ENVS = [
 WHENS = ["2024-08-21T00:00:00Z", "2024-08-21T00:00:00", "2024-03-10T02:30:00", "2024-08-21 00:00:00", "2024-08-21", "2024-08-21T00:00:00+09:00",
          "2024-08-21T00:00:00.5-07:00", "Wed, 21 Aug 2024 00:00:00 GMT", "1724198400", "2024-11-03T01:30:00", "20240821T000000", "2024-08-21T00:00:00 PST"]
 
-STRUCTURED = {"t-err-expectations-json", "pt-json-ofile", "pt-yaml-ofile", "rulegen-ofile", "fn-epoch-s-json", "fn-misc-s-yaml", "v-s-json", "v-s-yaml", "v-s-sarif", "v-s-junit", "v-printjson", "pt-json", "pt-yaml", "t-json", "t-yaml", "t-junit"}
+STRUCTURED = {"v-overlap-s-json", "v-overlap-s-junit", "t-err-expectations-json", "pt-json-ofile", "pt-yaml-ofile", "rulegen-ofile", "fn-epoch-s-json", "fn-misc-s-yaml", "v-s-json", "v-s-yaml", "v-s-sarif", "v-s-junit", "v-printjson", "pt-json", "pt-yaml", "t-json", "t-yaml", "t-junit"}
 TIME_RE = re.compile(rb'(time="[^"]*"|"time":\s*\d+|\btime:\s*\d+)')
 ANSI = re.compile(rb"\x1b\[[0-9;]*m")
 
@@ -102,6 +102,10 @@ def modes_for(sdir):
         "v-err-unknown-call": ["validate", "-r", os.path.join(sdir, "e2.guard")] + D + ["--structured", "-S", "none", "-o", "json"],
         "t-err-expectations-json": ["test", "-r", os.path.join(sdir, "tbad", "r1.guard"), "-t", os.path.join(sdir, "tbad", "bad_tests.json"), "-o", "json"],
         "t-err-expectations-console": ["test", "-r", os.path.join(sdir, "tbad", "r1.guard"), "-t", os.path.join(sdir, "tbad", "bad_tests.json")],
+        # the same rules file reachable twice (named directly and found again through its directory), next to other rules files
+        "v-overlap-s-json": ["validate", "-r", os.path.join(sdir, "rdir"), "-r", os.path.join(sdir, "rdir", "b_r2.guard")] + D + ["--structured", "-S", "none", "-o", "json"],
+        "v-overlap-s-junit": ["validate", "-r", os.path.join(sdir, "rdir", "a_r1.guard"), "-r", os.path.join(sdir, "rdir")] + D + ["--structured", "-S", "none", "-o", "junit"],
+        "v-overlap-console": ["validate", "-r", os.path.join(sdir, "rdir"), "-r", os.path.join(sdir, "rdir", "a_r1.guard"), "-r", os.path.join(sdir, "rdir")] + D + ["-S", "all"],
         "rulegen": ["rulegen", "-t", os.path.join(sdir, "rg.json")],
         "v-tf-console": ["validate", "-r", os.path.join(sdir, "tf.guard"), "-d", os.path.join(sdir, "tf")],
         "v-tf-console-all": ["validate", "-r", os.path.join(sdir, "tf.guard"), "-d", os.path.join(sdir, "tf"), "-S", "all", "-v"],
@@ -190,6 +194,11 @@ def build_inputs(rng, sdir):
     defs = "".join("rule known_%s {\n    a exists\n}\nrule pknown_%s(p) {\n    %%p exists\n}\n" % (n_, n_) for n_ in rng.sample("abcdefghijk", 7))
     open(os.path.join(sdir, "e1.guard"), "w").write(defs + "rule uses_unknown {\n    no_such_rule\n}\n")
     open(os.path.join(sdir, "e2.guard"), "w").write(defs + "rule calls_unknown {\n    no_such_prule(a)\n}\n")
+    os.makedirs(os.path.join(sdir, "rdir"), exist_ok=True)
+    shutil.copy(os.path.join(sdir, "r1.guard"), os.path.join(sdir, "rdir", "a_r1.guard"))
+    shutil.copy(os.path.join(sdir, "r2.guard"), os.path.join(sdir, "rdir", "b_r2.guard"))
+    open(os.path.join(sdir, "rdir", "c_extra.guard"), "w").write("rule c_extra {\n    a exists\n    Resources exists\n}\nrule c_fails {\n    zz_nokey_c exists\n}\n")
+    open(os.path.join(sdir, "rdir", "d_extra.guard"), "w").write("rule d_extra {\n    zz_nokey_d exists <<d>>\n}\n")
     shutil.copy(os.path.join(sdir, "r1.guard"), os.path.join(sdir, "t", "r1.guard"))
     names = [r["name"] for r in f["rules"]]
     import re as _re
@@ -416,7 +425,7 @@ def main(tier, seed):
     core.build(need_cli=True)
     res = core.run_shards(shard, seed, tier, "C05")
     mo = res.extra.get("modes_with_output", set())
-    floor = {"cases": (res.cases, 500), "modes_with_nonempty_output": (len([m for m in mo if not m.endswith(":EMPTY")]), 31),
+    floor = {"cases": (res.cases, 500), "modes_with_nonempty_output": (len([m for m in mo if not m.endswith(":EMPTY")]), 34),
              "in_process_repetitions": (res.counts["in_process_repetitions"], 200),
              "earlier_file_units_compared": (res.counts["earlier_file_units_compared"], 150)}
     return core.finish("C05", tier, seed, res, t0,
